@@ -6,12 +6,15 @@ import (
 	"context"
 	"encoding/json"
 	"fmt"
+	"golang.org/x/sys/unix"
 	"os"
+	"syscall"
 	"time"
 
 	"verifh/lib/hx"
 
 	"github.com/criyle/go-sandbox/container"
+	"github.com/criyle/go-sandbox/pkg/forkexec"
 	"github.com/criyle/go-sandbox/ptracer"
 	"github.com/criyle/go-sandbox/runner"
 	"github.com/criyle/go-sandbox/runner/ptrace"
@@ -49,6 +52,23 @@ func main() {
 			}}
 		r.Run(context.Background())
 		forever()
+	case "ptrace_in_sync":
+		// killed while the sync callback of a ptrace run is executing: the child is held before exec, nobody will answer it
+		r := &ptrace.Runner{Args: []string{hx.Target(), "tree", "3", token}, Env: []string{}, WorkDir: "/",
+			Limit: runner.Limit{TimeLimit: time.Hour, MemoryLimit: 1 << 40}, Seccomp: hx.AllowAll(), Handler: allowAll{},
+			SyncFunc: func(pid int) error { announce(map[string]any{"point": point, "pid": pid}); forever(); return nil }}
+		r.Run(context.Background())
+		forever()
+	case "forkexec_in_sync", "ns_in_sync":
+		fr := &forkexec.Runner{Args: []string{hx.Target(), "tree", "3", token}, Env: []string{},
+			SyncFunc: func(pid int) error { announce(map[string]any{"point": point, "pid": pid}); forever(); return nil }}
+		if point == "ns_in_sync" {
+			fr.CloneFlags = unix.CLONE_NEWUSER | unix.CLONE_NEWPID | unix.CLONE_NEWIPC
+			fr.UIDMappings = []syscall.SysProcIDMap{{ContainerID: 0, HostID: 0, Size: 1}}
+			fr.GIDMappings = []syscall.SysProcIDMap{{ContainerID: 0, HostID: 0, Size: 1}}
+		}
+		fr.Start()
+		forever()
 	case "init_command":
 		// killed while the container init runs its InitCommand (it is not reading the socket then)
 		go func() { time.Sleep(300 * time.Millisecond); announce(map[string]any{"point": point}) }()
@@ -71,7 +91,10 @@ func main() {
 	case "exec_running", "exec_running_after":
 		p := container.ExecveParam{Args: tree, Env: []string{"PATH=/usr/bin:/bin"}, SyncAfterExec: point == "exec_running_after",
 			SyncFunc: func(pid int) error {
-				go func() { time.Sleep(150 * time.Millisecond); announce(map[string]any{"point": point, "init": init, "pid": pid}) }()
+				go func() {
+					time.Sleep(150 * time.Millisecond)
+					announce(map[string]any{"point": point, "init": init, "pid": pid})
+				}()
 				return nil
 			}}
 		env.Execve(context.Background(), p)
@@ -79,7 +102,11 @@ func main() {
 	case "in_sync":
 		// killed while the callback runs: the program is held at the sync point
 		p := container.ExecveParam{Args: tree, Env: []string{"PATH=/usr/bin:/bin"},
-			SyncFunc: func(pid int) error { announce(map[string]any{"point": point, "init": init, "pid": pid}); forever(); return nil }}
+			SyncFunc: func(pid int) error {
+				announce(map[string]any{"point": point, "init": init, "pid": pid})
+				forever()
+				return nil
+			}}
 		env.Execve(context.Background(), p)
 	case "after_exec_returned":
 		// a program ran and left descendants behind; the call has returned
